@@ -37,6 +37,7 @@ type oblig struct {
 	knownBy string
 	except  string
 	goalSk  string   // goal with positive universal quantifiers skolemised
+	insts2  []string // wider instance set (neighbours of skolems, array index terms), second ground attempt
 	insts   []string // ground instances of quantified hypotheses at the skolem constants
 	hasQ    bool
 	cands   []binder // extra instantiation candidates (ghost loop counters, ...)
